@@ -580,64 +580,84 @@ Proof.
       fold m n in E, L. unfold mk in E. rewrite skipn_all2 in E by (rewrite repeat_length; flia).
       rewrite app_nil_r in E. unfold mk. rewrite E. now apply norm_eq_of_Z. }
     pose proof (karatsubaLen_bounds n thr Hthr ltac:(flia)) as Hk.
-    set (k := karatsubaLen n thr) in *.
+    set (k := karatsubaLen n thr) in *. clearbody k.
+    assert (Lxm : length x = m) by reflexivity. assert (Lyn : length y = n) by reflexivity.
+    clearbody m n. clear E0 Hb.
     set (x0 := firstn k x). set (y0 := firstn k y).
-    assert (Lx0 : length x0 = k) by (unfold x0; len).
-    assert (Ly0 : length y0 = k) by (unfold y0; len).
+    assert (Lx0 : length x0 = k) by (unfold x0; rewrite firstn_length; clear - Hk Hmn Lxm; lia).
+    assert (Ly0 : length y0 = k) by (unfold y0; rewrite firstn_length; clear - Hk Lyn; lia).
     assert (Ox0 : words_ok x0 = true) by (now apply words_ok_firstn).
     assert (Oy0 : words_ok y0 = true) by (now apply words_ok_firstn).
-    destruct (karatsuba_spec k thr (mk junk (Nat.max (6 * k) (m + n))) x0 y0 ltac:(flia) Ox0 Oy0)
-      as (R & S & E & LR & LS & OR & VR).
-    { unfold mk. rewrite repeat_length, Ly0. flia. }
-    rewrite Ly0 in LR, LS. rewrite E. rewrite (firstn_app_exact R S (2 * k)) by flia.
+    assert (Hz6 : (6 * length y0 <= length (mk junk (Nat.max (6 * k) (m + n))))%nat).
+    { unfold mk. rewrite repeat_length, Ly0. clear. lia. }
+    destruct (karatsuba_spec k thr (mk junk (Nat.max (6 * k) (m + n))) x0 y0
+                (eq_trans Lx0 (eq_sym Ly0)) Ox0 Oy0 Hz6) as (R & S & E & LR & LS & OR & VR).
+    rewrite Ly0 in LR, LS. rewrite E. rewrite (firstn_app_exact R S (2 * k) (eq_sym LR)).
     set (z := R ++ repeat 0 (m + n - 2 * k)).
-    assert (Lz : length z = (m + n)%nat) by (unfold z; len).
+    assert (Lz : length z = (m + n)%nat).
+    { unfold z. rewrite app_length, repeat_length, LR. clear - Hk Hmn. lia. }
     assert (Oz : words_ok z = true) by (unfold z; apply words_ok_app; split; [assumption | apply words_ok_repeat0]).
-    assert (Vz : val z = val x0 * val y0) by (unfold z; rewrite val_app', val_repeat0; flia).
+    assert (Vz : val z = val x0 * val y0) by (unfold z; rewrite val_app', val_repeat0, VR; ring).
+    clear E Hz6 LS S.
     destruct ((k <? n)%nat || negb (m =? n)%nat) eqn:Ebr.
-    - assert (Hbr : (k < n \/ m <> n)%nat).
-      { apply orb_true_iff in Ebr as [Hb1|Hb1]; [left; now apply Nat.ltb_lt in Hb1|].
-        right. apply negb_true_iff in Hb1. now apply Nat.eqb_neq in Hb1. }
+    - assert (Hbr : (2 * k < m + n)%nat).
+      { apply orb_true_iff in Ebr as [Hb1|Hb1].
+        - apply Nat.ltb_lt in Hb1. clear - Hb1 Hmn. lia.
+        - apply negb_true_iff in Hb1. apply Nat.eqb_neq in Hb1. clear - Hb1 Hmn Hk. lia. }
+      clear Ebr.
       set (y1 := skipn k y).
       assert (Oy1 : words_ok y1 = true) by (now apply words_ok_skipn).
-      assert (Ly1 : (length y1 + k = n)%nat) by (unfold y1; len).
-      assert (Vy : val y = val y0 + Bp k * val y1) by (apply val_split; flia).
+      assert (Ly1 : (length y1 + k = n)%nat) by (unfold y1; rewrite skipn_length; clear - Hk Lyn; lia).
+      assert (Vy : val y = val y0 + Bp k * val y1) by (apply val_split; clear - Hk Lyn; lia).
       pose proof (val_bounds' y0 Oy0) as By0. rewrite Ly0 in By0.
       pose proof (val_bounds' x0 Ox0) as Bx0. rewrite Lx0 in Bx0.
       pose proof (val_bounds' y1 Oy1) as By1.
-      pose proof (val_bounds' y Hy) as By. fold n in By.
-      pose proof (val_bounds' x Hx) as Bx. fold m in Bx.
+      pose proof (val_bounds' y Hy) as By. rewrite Lyn in By.
+      pose proof (val_bounds' x Hx) as Bx. rewrite Lxm in Bx.
       assert (Ox0n : words_ok (norm x0) = true) by (now apply words_ok_norm).
       assert (Lx0n : (length (norm x0) <= k)%nat).
-      { pose proof (zlen_norm_le x0). unfold zlen in *. flia. }
-      rewrite (IH (norm x0) y1) by (assumption || flia). rewrite val_norm.
+      { pose proof (zlen_norm_le x0) as Hz. unfold zlen in Hz. clear - Hz Lx0. lia. }
+      assert (F0 : (length (norm x0) + length y1 < f)%nat) by (clear - Lx0n Ly1 Hf Hmn Hk; lia).
+      rewrite (IH (norm x0) y1 F0 Ox0n Oy1). rewrite val_norm.
       set (t := of_Z (val x0 * val y1)).
-      assert (Vt : val t = val x0 * val y1) by (unfold t; apply val_of_Z; apply Z.mul_nonneg_nonneg; flia).
+      assert (Vt : val t = val x0 * val y1).
+      { unfold t. apply val_of_Z. apply Z.mul_nonneg_nonneg; [exact (proj1 Bx0) | exact (proj1 By1)]. }
       assert (Lt : (length t <= k + length y1)%nat).
-      { unfold t. apply length_of_Z_le. rewrite Bp_add. apply mul_lt_bounds; flia. }
+      { unfold t. apply length_of_Z_le. rewrite Bp_add. apply mul_lt_bounds; assumption. }
       assert (Ot : words_ok t = true) by apply words_ok_of_Z.
       pose proof (val_firstn_le k x Hx) as Hx0le. fold x0 in Hx0le.
-      pose proof (Bp_pos k).
-      assert (Hxy : val x * val y < Bp (m + n)) by (rewrite Bp_add; apply mul_lt_bounds; flia).
-      destruct (decAddAt_spec z t k Oz Ot ltac:(flia)) as (Lz1 & Oz1 & _).
+      pose proof (Bp_pos k) as Hpk.
+      assert (Hxy : val x * val y < Bp (length z)).
+      { rewrite Lz, Bp_add. apply mul_lt_bounds; assumption. }
+      assert (Hl1 : (k + length t <= length z)%nat) by (clear - Lt Ly1 Lz Hmn; lia).
+      destruct (decAddAt_spec z t k Oz Ot Hl1) as (Lz1 & Oz1 & _).
       assert (Vz1 : val (decAddAt z t k) = val z + Bp k * val t).
-      { apply decAddAt_exact; try assumption; try flia. rewrite Lz, Vz, Vt.
-        assert (val x0 * val y0 + Bp k * (val x0 * val y1) = val x0 * val y) by (rewrite Vy; ring).
-        assert (val x0 * val y <= val x * val y) by (apply Z.mul_le_mono_nonneg_r; flia). flia. }
-      destruct (mul_blocks_spec (mul_f f thr junk) f k x (norm y0) y1 y m n) with
-        (fuel := m) (z := decAddAt z t k) (i := k) as (Lr & Or & Vr); try assumption; try flia.
-      + intros a b Ha Hb' Hlen. apply IH; assumption.
-      + reflexivity.
-      + now apply words_ok_norm.
-      + pose proof (zlen_norm_le y0). unfold zlen in *. flia.
-      + now rewrite val_norm.
-      + now rewrite val_norm.
-      + rewrite Vz1, Vz, Vt, Vy. fold x0. ring.
-      + now apply norm_eq_of_Z.
+      { apply (decAddAt_exact z t k Oz Ot Hl1). rewrite Vz, Vt.
+        assert (E1' : val x0 * val y0 + Bp k * (val x0 * val y1) = val x0 * val y) by (rewrite Vy; ring).
+        assert (E2' : val x0 * val y <= val x * val y).
+        { apply Z.mul_le_mono_nonneg_r; [exact (proj1 By) | exact (proj2 Hx0le)]. }
+        rewrite E1'. clear - E2' Hxy. lia. }
+      assert (Hmul : forall a b, words_ok a = true -> words_ok b = true -> (length a + length b < f)%nat ->
+                       mul_f f thr junk a b = of_Z (val a * val b)).
+      { intros a b Ha Hb' Hlen. apply IH; assumption. }
+      assert (Ly0n : (length (norm y0) <= k)%nat).
+      { pose proof (zlen_norm_le y0) as Hz. unfold zlen in Hz. clear - Hz Ly0. lia. }
+      assert (Vy' : val y = val (norm y0) + Bp k * val y1) by (now rewrite val_norm).
+      assert (By0' : 0 <= val (norm y0) < Bp k) by (now rewrite val_norm).
+      assert (HF1 : (2 * k < f)%nat) by (clear - Hbr Hf; lia).
+      assert (HF2 : (n < f)%nat) by (clear - Hf Hmn Hk; lia).
+      assert (Hfuel : (m <= k + m)%nat) by (clear; lia).
+      assert (Lz1' : length (decAddAt z t k) = (m + n)%nat) by (rewrite Lz1; exact Lz).
+      assert (Vstart : val (decAddAt z t k) = val (firstn k x) * val y).
+      { rewrite Vz1, Vz, Vt, Vy. fold x0. ring. }
+      destruct (mul_blocks_spec (mul_f f thr junk) f k x (norm y0) y1 y m n Hmul Lxm Hk Hmn Hx
+                  (words_ok_norm y0 Oy0) Oy1 Ly0n Ly1 Vy' By0' By HF1 HF2 m (decAddAt z t k) k
+                  Hfuel Lz1' Oz1 Vstart) as (Lr & Or & Vr).
+      now apply norm_eq_of_Z.
     - apply orb_false_iff in Ebr as [Hb1 Hb2]. apply Nat.ltb_ge in Hb1.
       apply negb_false_iff in Hb2. apply Nat.eqb_eq in Hb2.
       apply norm_eq_of_Z; [assumption|]. rewrite Vz. unfold x0, y0.
-      rewrite !firstn_all2 by flia. reflexivity. }
+      rewrite !firstn_all2 by (clear - Hb1 Hb2 Hk Lxm Lyn; lia). reflexivity. }
   cbn [mul_f].
   destruct (Nat.ltb_spec (length x) (length y)).
   - rewrite (Z.mul_comm (val x)). apply Core; (assumption || flia).
